@@ -95,15 +95,38 @@ def sizer_names(st):
     return set(m.sizer for m in st.members if m.kind == EXT)
 
 
-def build(msg, schema, tname, value):
-    """Set a live message to the reference value using the documented public API only."""
+def _has_unsized_bytes(schema, tname, _seen=None):
+    _seen = _seen if _seen is not None else set()
+    r = schema.resolve(tname)
+    if isinstance(r, str) or r.kind == 'enum' or r.name in _seen:
+        return False
+    _seen.add(r.name)
+    if r.kind == 'union':
+        return any(_has_unsized_bytes(schema, a[1], _seen) for a in r.arms)
+    return any((m.type == 'byte' and m.kind != FIXED) or (m.type != 'byte' and _has_unsized_bytes(schema, m.type, _seen))
+               for m in r.members)
+
+
+def _is_default(schema, tname, v):
+    """Default-valued and safe to leave untouched (an unsized bytes field must always be assigned: its
+    never-assigned default is the str '' - recorded finding of C01/C10)."""
+    from . import apimodel
+    return v == apimodel.default_of(schema, tname) and not _has_unsized_bytes(schema, tname)
+
+
+def build(msg, schema, tname, value, sparse=False):
+    """Set a live message to the reference value using the documented public API only.
+    sparse=True performs the fewest operations: values equal to the default are never assigned or even read
+    (a union arm is selected through the discriminator only, nested composites holding defaults are not touched)."""
     r = schema.resolve(tname)
     if r.kind == 'union':
         arm_name, v = value
         arm = [a for a in r.arms if a[2] == arm_name][0]
         msg.discriminator = arm_name
+        if sparse and _is_default(schema, arm[1], v):
+            return
         if is_composite(schema, arm[1]):
-            build(getattr(msg, arm_name), schema, arm[1], v)
+            build(getattr(msg, arm_name), schema, arm[1], v, sparse)
         else:
             setattr(msg, arm_name, v)
         return
@@ -114,31 +137,36 @@ def build(msg, schema, tname, value):
         v = value[m.name]
         comp = m.type != 'byte' and is_composite(schema, m.type)
         if m.kind == PLAIN:
+            if sparse and _is_default(schema, m.type, v):
+                continue
             if comp:
-                build(getattr(msg, m.name), schema, m.type, v)
+                build(getattr(msg, m.name), schema, m.type, v, sparse)
             else:
                 setattr(msg, m.name, v)
         elif m.kind == OPTIONAL:
             if v is None:
-                setattr(msg, m.name, None)
+                if not sparse:
+                    setattr(msg, m.name, None)
             elif comp:
                 setattr(msg, m.name, True)
-                build(getattr(msg, m.name), schema, m.type, v)
+                build(getattr(msg, m.name), schema, m.type, v, sparse)
             else:
                 setattr(msg, m.name, v)
         elif m.type == 'byte':
             setattr(msg, m.name, v)
         else:
+            if sparse and m.kind != FIXED and len(v) == 0:
+                continue
             arr = getattr(msg, m.name)
             if not comp:
                 arr[:] = v
             elif m.kind == FIXED:
                 for i, e in enumerate(v):
-                    build(arr[i], schema, m.type, e)
+                    build(arr[i], schema, m.type, e, sparse)
             else:
                 del arr[:]
                 for e in v:
-                    build(arr.add(), schema, m.type, e)
+                    build(arr.add(), schema, m.type, e, sparse)
 
 
 def read(msg, schema, tname, names=None):
